@@ -160,6 +160,24 @@ def h_reuse_options(ctx, kind):
     J = teneva.poi_to_ind(X2, a, b, n, kind)
     ctx.claim('roundtrip', all(int(J[k]) == int(i[k]) for k in range(2)))
     ctx.claim('options_untouched_after_poi_to_ind', bool(np.array_equal(n, n0)))
+    # scalar options: the caller edits the vectors it got from grid_prep_opts; later calls with the
+    # same scalars still mean the same box and grid as the per-dimension lists
+    a0 = ctx.real('a0')
+    b0 = ctx.real('b0')
+    ctx.assume(ctx.gt(b0 - a0, 1))
+    ctx.assume(ctx.lt(b0 - a0, 8))
+    ctx.assume(ctx.gt(a0, -8))
+    ctx.assume(ctx.lt(a0, 8))
+    av, bv, nv = teneva.grid_prep_opts(a0, b0, 5, 2)
+    av[0] = av[0] + 5
+    bv *= 2
+    nv[1] = 12
+    i2 = np.array([[4, 0], [2, 3]])
+    Xs = teneva.ind_to_poi(i2, a0, b0, 5, kind)
+    Xl = teneva.ind_to_poi(i2, [a0, a0], [b0, b0], [5, 5], kind)
+    ctx.claim('scalar_options_equal_per_dimension_after_edit', ctx.all_eq(Xs, Xl))
+    Js = teneva.poi_to_ind(Xl, a0, b0, 5, kind)
+    ctx.claim('roundtrip_scalar_options_after_edit', bool(np.array_equal(np.asarray(Js, dtype=int), i2)))
 
 
 def h_bad_options(ctx):
@@ -197,10 +215,15 @@ def h_grid_flat(ctx, n):
     ctx.claim('scalar_n', np.array_equal(teneva.grid_flat(4), np.arange(4)))
 
 
-def h_cdf(ctx, m):
+def h_cdf(ctx, m, reuse=False):
+    """reuse: the caller overwrites its sample buffer with the next batch after the
+    getter was built; the getter still describes the sample it was built from."""
     xs = vec(ctx, 'x', m)
     z = ctx.real('z')
-    cdf = teneva.cdf_getter(xs)
+    buf = xs.copy()
+    cdf = teneva.cdf_getter(buf)
+    if reuse:
+        buf[...] = vec(ctx, 'w', m)
     v = cdf(z)
     alts = []
     for kk in range(m + 1):
@@ -267,6 +290,8 @@ def instances(tier):
         out.append({'func': 'h_grid_flat', 'params': {'n': n}})
     for m in ([1, 2, 3] if quick else [1, 2, 3, 4]):
         out.append({'func': 'h_cdf', 'params': {'m': m}})
+    for m in ([2] if quick else [2, 3]):
+        out.append({'func': 'h_cdf', 'params': {'m': m, 'reuse': True}})
     return out
 
 
